@@ -631,6 +631,39 @@ CONTRACT_ONLY_READS = '''statechart:
               - before: active('b1') or not active('b1')
 '''
 
+SAME_GUARD_TEXT = '''statechart:
+  name: the same guard text on transitions of different source states, with a different truth value for each
+''' + PRE + '''  root state:
+    name: root
+    initial: session
+    states:
+      - name: expired
+        transitions:
+          - target: session
+            event: e0
+      - name: session
+        initial: idle
+        transitions:
+          - target: expired
+            guard: after(10)
+          - target: expired
+            event: e2
+            guard: idle(4)
+        states:
+          - name: idle
+            transitions:
+              - target: busy
+                event: e1
+          - name: busy
+            transitions:
+              - target: idle
+                guard: after(10)
+                action: x = x + 1
+              - event: e2
+                guard: idle(4)
+                action: y = y + 1
+'''
+
 
 def deep_chain_yaml(depth=12):
     """root > line > {idle, s1 ... nested `depth` levels (level2..), H* deep history, h shallow history}; names like s1 / s10
@@ -713,6 +746,10 @@ def entries():
 
     out.append(('contract_only_reads', CONTRACT_ONLY_READS, None,
                 [('exec',), q('e0'), ('exec',), q('e0'), ('exec',), q('e1'), ('exec',), q('e0'), ('exec',), q('e1'), ('exec',), ('exec',)]))
+
+    out.append(('same_guard_text', SAME_GUARD_TEXT, None,
+                [('exec',), ('clock', 8), q('e1'), ('exec',), ('clock', 2), ('exec',), ('exec',), q('e0'), ('exec',), ('clock', 3), q('e1'), ('exec',),
+                 ('clock', 2), q('e2'), ('exec',), ('clock', 2), q('e2'), ('exec',), ('clock', 4), ('exec',), ('exec',), ('clock', 10), ('exec',), ('exec',)]))
 
     def add_noncontiguous(sc):
         from sismic.model import Transition
